@@ -214,6 +214,17 @@ def iter_zones(ctx, tz, relativedelta, rng, tier, with_real=True, n_posix=None, 
                 yield 'tzical(single %s)' % name, 'tzical-fixed', tz.tzical(io.StringIO(text)).get(), FixedModel(off, name), nothing
             except Exception as e:
                 ctx.violation('tzical-rejected', {'zone': 'single ' + name}, '%s: %s' % (type(e).__name__, e))
+        # offsets with a seconds part (+-hhmmss), both signs, always present whatever the seed draws
+        for stdoff, save in ((-17762, 3600), (1172, 3600), (-(3 * 3600 + 30 * 60 + 52), 1800)):
+            pz = PZ.PosixZone('LST', stdoff, 'LDT', stdoff + save, ('M', 3, 2, 0), 7200, ('M', 11, 1, 0), 7200)
+            for order in ('SD', 'DS'):
+                try:
+                    yield ('tzical(sub-minute %d,%s)' % (stdoff, order), 'tzical', vtimezone_zone(tz, pz, first_year=2000, order=order),
+                           PosixModel(pz, years), nothing)
+                except Exception as e:
+                    ctx.violation('tzical-rejected', {'zone': 'sub-minute %d' % stdoff}, '%s: %s' % (type(e).__name__, e))
+            if want('tzrange'):
+                yield 'tzrange(sub-minute %d)' % stdoff, 'tzrange', tzzoo.tzrange_equivalent(tz, relativedelta, pz), PosixModel(pz, years), nothing
         # TZNAME is optional per component: a component without it has no abbreviation (and must not inherit one)
         for nameless in ('EST', 'EDT'):
             for order in ('SD', 'DS'):
